@@ -164,7 +164,7 @@ type Engine struct {
 	rng        uint64
 
 	QEs                  []*QEInfo
-	curReq               *Submission
+	curReq               map[string]*Submission // by listener task
 	idleNow              bool
 	subsChecked          map[int]bool
 	Mon                  *simconn.Monitor
